@@ -1,5 +1,5 @@
 """C43 Integer-range ACLs match exactly the configured ranges — E1, every ordered list over a value pool."""
-from vverif import seq
+from vverif import seq, seqla
 from vverif.core import Result, HarnessError
 
 LEVEL = 'exploration'
@@ -12,7 +12,7 @@ ASSUME = ['only well-formed values (lo <= hi <= 65535) are configured; malformed
 
 
 def _build(ctx):
-    return seq.build(ctx, 'tests/testCacheManager', ['C43_intrange.cc'])
+    return seqla.build(ctx, 'tests/testCacheManager', ['C43_intrange.cc'])
 
 
 def run(ctx):
